@@ -301,7 +301,7 @@ func checkC12(c C12Case, r *Rec) *Violation {
 
 var propC12 = Prop[C12Case]{
 	ID:    "C12",
-	Rule:  "typed random expression (custom, stateful and failing operators, failing variables) x optimization subsets (4 per case quick, 16 thorough) x binding x {Eval, TryEval with an availability split} x {ReportEvent, Debug} x consumer {synchronous reader copying on receipt; buffered channel drained after the call; reader that overwrites every Stack slice it receives}. Oracles: result, effect trace and Dump equal to the same case compiled without events; OP_EXEC events read after the evaluation equal, in order, the operator applications (name, arguments, result/error, IsFastOp) that R/R_fast performs on the dumped tree (the final fold of a non-fast and/or with no absorbing operand is optional); TryEval: registered-operator events equal the operators' own call log, built-in events are self-consistent under the operator model, no DNE argument; events retained by the consumer equal the copies taken at receipt; LOOP positions strictly increase. Non-trivial = at least two binary-operator applications and a consumer that is not the synchronous copying one; distinct by source + binding + consumer",
+	Rule:  "typed random expression (custom, stateful and failing operators, failing variables) x optimization subsets (4 per case quick, 16 thorough) x binding x {Eval, TryEval with an availability split} x {ReportEvent, Debug} x consumer {synchronous reader copying on receipt; buffered channel drained after the call; reader that overwrites every Stack slice it receives}. Oracles: result, effect trace and Dump equal to the same case compiled without events; OP_EXEC events read after the evaluation equal, in order, the operator applications (name, arguments, result/error) that R/R_fast performs on the dumped tree (the final fold of a non-fast and/or with no absorbing operand is optional); TryEval: registered-operator events equal the operators' own call log, built-in events are self-consistent under the operator model, no DNE argument; events retained by the consumer equal the copies taken at receipt; LOOP positions strictly increase. Non-trivial = at least two binary-operator applications and a consumer that is not the synchronous copying one; distinct by source + binding + consumer",
 	Gen:   genC12,
 	Check: checkC12,
 }
